@@ -337,8 +337,11 @@ class HalfRankComponent(OutputWarper):
         labels_arr[is_finite], return_index=True
     )
 
-    # Rank sort.
-    ranks = stats.rankdata(labels_arr, method='dense')  # nans ranked last.
+    # Dense ranks of the finite labels. NaN labels are not warped and get no
+    # rank: scipy>=1.10 `rankdata` propagates NaN (every rank becomes NaN as soon
+    # as one label is NaN), so only the finite entries are ranked.
+    ranks = np.full(labels_arr.shape, np.nan)
+    ranks[is_finite] = stats.rankdata(labels_arr[is_finite], method='dense')
     dedup_median_index = unique_labels.searchsorted(median, 'left')
     denominator = (
         dedup_median_index + (unique_labels[dedup_median_index] == median) * 0.5
